@@ -21,4 +21,22 @@ META = {
                 note="pos/end are enumerated by the harness loop (they fix string lengths), buffer bytes are symbolic."),
 }
 
+META.update({
+    "C01": dict(design_ref="DESIGN.md 5/C01", technique=TECH,
+                text="Bounded model checking of the round trip: on every explored path with an error-free first parse, SQL() re-parses without error (else violation), the generated structural equality holds, and the second SQL() equals the first (byte equality by z3 where bytes are symbolic). Inputs: all short byte strings (S1), literal templates with symbolic bodies, vocabulary slots (S2: operand x operator matrix, expression/type/query token sequences).",
+                note="Error paths of the first parse are cut at (*Parser).handleError where noted in the evidence (the property is conditional on an error-free parse); the structural equality is generated from the current ast package with go/types."),
+    "C04": dict(design_ref="DESIGN.md 5/C04", technique=TECH,
+                text="Bounded model checking of totality of SQL/Pos/End/Walk/Inspect/Preorder on every node of every returned tree, error-recovered trees included (no cut): any nil dereference, failed type switch or out-of-range index on any path is a solver-witnessed violation.",
+                note="Inputs: S1 bytes, recovery soups, operand x operator matrix with one snippet per ast.Expr implementer."),
+    "C05": dict(design_ref="DESIGN.md 5/C05", technique=TECH,
+                text="Bounded model checking of position soundness on every node of every returned tree: range, token alignment against the real lexer's boundaries, nesting and sibling order, using the generated children table (independent of Walk).",
+                note="'>>' and '<>' midpoints count as token boundaries (the parser legitimately splits them in type contexts); CreateTable is exempt from sibling order as in the upstream test."),
+    "C09": dict(design_ref="DESIGN.md 5/C09", technique=TECH,
+                text="Bounded model checking of the error contract on every path: nil error implies no Bad node and every token inside the returned node(s) (';' between list statements and a trailing ',' excepted); Bad nodes imply an error; errors are MultiErrors with at least one element per BadNode, each with a message and an in-range Position.",
+                note="Inputs: S1 bytes and recovery soups (error paths kept)."),
+    "C10": dict(design_ref="DESIGN.md 5/C10", technique=TECH,
+                text="Bounded model checking: for every BadNode on every explored path, Tokens equals the recovery-mode lexing of input[NodePos:NodeEnd] (kinds, spellings, positions), the range is delimited by the first/last token, and SQL() of the node re-lexes to the same tokens.",
+                note="The reference is the real lexer run in the recovery mode on the node's own range (in-package harness); one known finding (unclosed comment at the recovery point) is listed in KNOWN_FINDINGS.txt."),
+})
+
 NOT_APPLICABLE = {}
